@@ -727,8 +727,9 @@ func scenAPI(out *scenOut, r *rng, thorough bool) {
 		endedBeforeItBegan(out, how)
 	}
 	runAgain(out)
-	waitBeforeRun(out, "quit")
-	waitBeforeRun(out, "kill")
+	for _, cause := range []string{"quit", "kill", "kill-before-run", "ctx-before-run"} {
+		waitBeforeRun(out, cause)
+	}
 	manyLateCalls(out, "kill")
 	manyLateCalls(out, "quit")
 	// "Before the program starts, Send blocks until it is running"
@@ -1286,7 +1287,9 @@ func manyLateCalls(out *scenOut, cause string) {
 // completed, like every other Wait caller.
 func waitBeforeRun(out *scenOut, cause string) {
 	ctl := newRecCtl()
-	p := tea.NewProgram(recModel{c: ctl}, tea.WithInput(nil), tea.WithOutput(&safeBuffer{}), tea.WithoutSignalHandler())
+	ctx, cancelCtx := context.WithCancel(context.Background())
+	defer cancelCtx()
+	p := tea.NewProgram(recModel{c: ctl}, tea.WithInput(nil), tea.WithOutput(&safeBuffer{}), tea.WithoutSignalHandler(), tea.WithContext(ctx))
 	desc := "three goroutines call Wait before Run is called; Run; " + cause
 	var waiters sync.WaitGroup
 	for i := 0; i < 3; i++ {
@@ -1294,12 +1297,20 @@ func waitBeforeRun(out *scenOut, cause string) {
 		go func() { defer waiters.Done(); p.Wait() }()
 	}
 	time.Sleep(30 * time.Millisecond)
+	switch cause { // the program is ended before it begins
+	case "kill-before-run":
+		p.Kill()
+	case "ctx-before-run":
+		cancelCtx()
+	}
 	runDone := make(chan error, 1)
 	go func() { _, err := p.Run(); runDone <- err }()
-	waitFor(2*time.Second, func() bool { return ctl.log.has("view-exit", "") })
-	if cause == "kill" {
+	switch cause {
+	case "kill":
+		waitFor(2*time.Second, func() bool { return ctl.log.has("view-exit", "") })
 		p.Kill()
-	} else {
+	case "quit":
+		waitFor(2*time.Second, func() bool { return ctl.log.has("view-exit", "") })
 		p.Quit()
 	}
 	out.record("wait-before-run/"+cause, desc)
